@@ -216,7 +216,7 @@ PROPS["C05"] = dict(
 PROPS["C15"] = dict(
     env=dict(thorough=dict(BW_CASE_TIMEOUT_S=240)),  # deep cases enumerate several thousand damaged images each
     level="fault_enumeration",
-    # the value packages are instrumented too: a tenth of the cases call the parsers from several tasks at once
+    # the value packages are instrumented too: three cases in ten call the parsers from several tasks at once
     instrument=ENGINE_FILES + ["triple/triple.go", "triple/node/node.go", "triple/predicate/predicate.go", "triple/literal/literal.go"],
     instr_flags=["-skipinit"],
     budget=dict(quick=30, thorough=900),
@@ -226,7 +226,7 @@ PROPS["C15"] = dict(
          "reader into an empty graph, and every line and every tab separated field of it is handed to triple.Parse, node.Parse, predicate.Parse, the literal builder and triple.ParseObject. "
          "Oracle: no panic; never (nil / empty value, nil error); an accepted value prints to text that is accepted again as an equal value; the reader loads exactly the triples of the lines "
          "before the first line the reference line recogniser (written from the docs) rejects and reports that count - a line the reference rejects but the implementation accepts is judged by "
-         "the print / re-parse rule instead. A tenth of the cases are concurrent-parse cases instead: the lines and fields of the intact image are parsed by 2-3 tasks at once under the seeded "
+         "the print / re-parse rule instead. Three cases in ten are concurrent-parse cases instead: the lines and fields of the intact image are parsed by 2-4 tasks at once under the seeded "
          "scheduler (value packages instrumented) and every result must equal what the same call returns on its own. When the reader fails at byte k: the call fails, the reported count is the number of lines loaded, those are exactly the first lines, and every well formed "
          "line delivered completely before the failure is loaded (documented contract of ReadIntoGraph). evaluations = damaged images; non-trivial: non-empty graph; distinct = distinct graphs",
     exhaustive_note="exhaustive over the truncation points and lost-head offsets of each sampled image (<= 400 bytes) and over single-line duplications / drops / separator losses; everything else is sampled",
